@@ -218,12 +218,12 @@ CHECKS['C08'] = dict(
 CHECKS['C05'] = dict(
     technique='layout agreement of delegating join operators (T14: schema vs row order under swapped delegation), construction analysis of the NOT IN -> anti join '
               'condition on the negated path, guard analysis of the EXISTS -> IN decorrelation (deciding conditions over MIR)',
-    text='Decides three structural necessary conditions of "rewrites and join algorithms preserve meaning": a join operator that delegates with swapped inputs '
-         'does not hand out the delegate\'s schema with rows in its own order; the anti join produced for NOT IN carries the IS NULL alternatives of both '
+    text='Decides three structural necessary conditions of "rewrites and join algorithms preserve meaning": every join operator builds its result with a schema '
+         'rooted at its first input (rows are laid out left, right); the anti join produced for NOT IN carries the IS NULL alternatives of both '
          'operands; NOT EXISTS is never decorrelated to NOT IN. Each rule was written from a defect demonstrated on the pinned tree (wrong column values under '
          'RIGHT JOIN, NOT IN / NOT EXISTS answers under NULLs), fires on the pre-repair commit and passes after the repairs.',
     note='The property was listed as not applicable in the plan (plan equivalence is semantic); that stands for join-order independence and value agreement of '
-         'the join algorithms. Known limitation left as found: RIGHT JOIN whose left side is itself a join fails with an error (no silent wrong result).',
+         'the join algorithms.',
     design='§10.3 C05 (as built) and §10.4')
 
 CHECKS['C03'] = dict(
